@@ -196,8 +196,22 @@ def run(ctx):
         okw = len(ws) >= 1 and all(w[0] == gf for w in ws) and gf is not None
         ctx.check("wiring", "file/%s" % k, okw, "`%s` is stored in field %s, which %s() returns" % (k, gf, GETTER.get(k)),
                   "`%s` is stored in %s but %s() returns %s" % (k, sorted({w[0] for w in ws}) or "no field", GETTER.get(k), gf), fnew.loc(ws[0][2]) if ws else ctx.loc(fnew))
-        for (fld, val, b, i) in ws:
-            src_ok = values.contains(val, lambda s: is_call(s) and callee_name(s[1]) in ("as_i64", "as_str", "as_bool") ) or True
+        # the arm stores the value whatever the rest of the configuration looks like: a store that happens only when some other setting already
+        # has a certain value makes the result depend on the order of the keys in the file (and drops a documented setting silently)
+        if ws and k in matched:
+            eqb = matched[k]
+            swb = fnew.blocks[eqb].term.get("tgt")
+            tt_ = fnew.blocks[swb].term if swb is not None else None
+            arm = None
+            if tt_ is not None and tt_["k"] == "switch":
+                arm = tt_["otherwise"] if all(cv == 0 for cv, _x in tt_["cases"]) else next((tg for cv, tg in tt_["cases"] if cv == 1), None)
+            hdrs_ = {l["header"] for l in fnew.in_loop(eqb)}
+            if arm is not None and hdrs_:
+                wbs = [w[2] for w in ws]
+                oke = values.must_pass(fnew, wbs, from_block=arm, to_blocks=hdrs_)
+                ctx.check("wiring", "file/%s/stored-on-every-path" % k, oke, "the arm of `%s` stores the value on every path that goes on to the next key" % k,
+                          "the arm of `%s` can finish without storing the value (the store depends on something else than the key's own value): the setting is dropped silently" % k,
+                          fnew.loc(arm))
     # lossless conversion
     for (b, i, rv) in casts:
         frm, to = rv["from"], rv["to"]
@@ -226,6 +240,37 @@ def run(ctx):
                 if len(negs) >= len(doc_keys):
                     errs.append(bl.idx)
     ctx.check("refusal", "file/unknown-key-is-an-error", len(errs) == 1, "a key matching none of the documented names returns Err", "unknown YAML keys are not rejected", ctx.loc(fnew))
+    # ... on every path: follow one pass of the key loop taking the "not this key" edge of every comparison; it must not come back to the loop
+    # header (next key) - whatever the type of the value is
+    key_cmps = [(lit, bb) for (lit, other, bb) in cands if other == keyterm]
+    if key_cmps:
+        removed = set()
+        order_ = {b: i for i, b in enumerate(fnew.rpo())}
+        for lit, bb in key_cmps:
+            swb = fnew.blocks[bb].term.get("tgt")
+            tt_ = fnew.blocks[swb].term if swb is not None else None
+            if tt_ is not None and tt_["k"] == "switch":
+                arm = tt_["otherwise"] if all(cv == 0 for cv, _x in tt_["cases"]) else next((tg for cv, tg in tt_["cases"] if cv == 1), None)
+                if arm is not None:
+                    removed.add((swb, arm))
+        first = min((bb for lit, bb in key_cmps if fnew.in_loop(bb)), key=lambda b: order_.get(b, 10 ** 6))
+        lp_ = max(fnew.in_loop(first), key=lambda l: len(l["body"]))
+        hdrs_ = {lp_["header"]}
+        # start at the top of one pass (the loop header), so that every way to the comparisons is covered - also one that depends on the value's type
+        seen_, work_, back = set(), [lp_["header"]], None
+        while work_:
+            x = work_.pop()
+            for y in fnew.succ(x):
+                if (x, y) in removed or y in seen_:
+                    continue
+                if y in hdrs_:
+                    back = x
+                    continue
+                seen_.add(y)
+                work_.append(y)
+        ctx.check("refusal", "file/unknown-key-never-skipped", back is None and bool(hdrs_), "a pass of the key loop in which no documented key matched never goes on to the next key",
+                  "a key that matches no documented name can be skipped without an error (the loop continues from %s): a misspelled setting is silently ignored" % (fnew.loc(back) if back is not None else None),
+                  fnew.loc(back) if back is not None else ctx.loc(fnew))
 
     # ------------------------------------------------------------------ EnvironmentConfig
     enew = ctx.fn(ENVC + "::new")
@@ -296,6 +341,26 @@ def run(ctx):
         ctx.check("wiring", "env/%s/no-other-assignment" % k, not other, "field %s is assigned only from %s" % (gf, envname),
                   "field %s is also assigned a value that does not come from %s (%s): what was written can be replaced before it is validated" % (gf, envname, [fmt(w[0])[:60] for w in other]),
                   enew.loc(other[0][1]) if other else ctx.loc(enew))
+        # the variable, when set, is stored whatever the other variables are
+        if src and envname in env_reads:
+            rb_ = None
+            for bb_, t_ in enew.calls():
+                if strip_generics(t_["fn"].get("path", "")).endswith("env::var") and eev.call_args(bb_) and eev.call_args(bb_)[0] == ("str", envname):
+                    rb_ = bb_
+            if rb_ is not None:
+                ct_ = eev.call_term(rb_)
+                okarm = None
+                for bl in enew.blocks:
+                    if bl.idx in enew.reachable() and bl.term["k"] == "switch":
+                        c_ = eev.op(bl.term["op"], (bl.idx, "term"))
+                        if c_[0] == "discr" and values.strip_payload(c_[1]) == ct_ and enew.dominates(rb_, bl.idx) and okarm is None:
+                            cs_ = {cv: tg for cv, tg in bl.term["cases"]}
+                            okarm = cs_.get(0, bl.term["otherwise"] if 1 in cs_ else None)
+                if okarm is not None:
+                    oke = values.must_pass(enew, [w[1] for w in src], from_block=okarm)
+                    ctx.check("wiring", "env/%s/stored-whenever-set" % k, oke, "%s, when set, is stored on every path" % envname,
+                              "%s can be set and still not be stored (the store depends on something else than the variable's own value): the setting is dropped silently" % envname,
+                              enew.loc(okarm))
         ctx.check("wiring", "env/%s" % k, bool(src), "%s is stored in field %s, which %s() returns" % (envname, gf, GETTER.get(k)),
                   "the field %s returned by %s() is not loaded from %s" % (gf, GETTER.get(k), envname), enew.loc(ws[0][1]) if ws else ctx.loc(enew))
         for w in src:
